@@ -675,7 +675,53 @@ def write_send(clauses, problems, structure_ok):
     for p in problems: lines.append(f'(* PROBLEM: {p} *)')
     emit('SendClauses.v', '\n'.join(lines) + '\n')
 
+def extract_splits():
+    """every split function of the crate: receiver (by value / &mut self), which published indices it resets, which liveness bits it
+    sets, which iterators it creates"""
+    out = []; problems = []
+    for rel in ('ring_buffer/storage/mod.rs', 'ring_buffer/variants/concurrent_rb.rs', 'ring_buffer/variants/local_rb.rs'):
+        path = os.path.join(REPO, 'src', rel)
+        if not os.path.exists(path): continue
+        txt = strip_comments(open(path).read())
+        for m in re.finditer(r'\bfn\s+(split\w*)\s*(?:<[^>]*>)?\s*\(\s*(&mut self|self)\s*\)', txt):
+            i = txt.find('{', m.end())
+            semi = txt.find(';', m.end())
+            if i < 0 or (0 <= semi < i): continue            # a declaration in a trait
+            d = 0; j = i
+            while j < len(txt):
+                if txt[j] == '{': d += 1
+                elif txt[j] == '}':
+                    d -= 1
+                    if d == 0: break
+                j += 1
+            body = txt[i:j]
+            def tri(pat): return tuple(bool(re.search(pat % k, body)) for k in ('prod', 'work', 'cons'))
+            reset = tri(r'self\.set_%s_index\(\s*0\s*\)')
+            alive = tri(r'self\.set_%s_alive\(\s*true\s*\)')
+            iters = tuple(bool(re.search(k + r'Iter::new\(', body)) for k in ('Prod', 'Work', 'Cons'))
+            other = re.findall(r'self\.set_\w+\([^)]*\)', body)
+            known = sum(reset) + sum(alive)
+            if len(other) != known: problems.append(f'{rel}::{m.group(1)}: unrecognised setter call among {other}')
+            out.append((f'{rel}::{m.group(1)}', m.group(2) == '&mut self', reset, alive, iters))
+    if len(out) < 4: problems.append(f'only {len(out)} split functions found')
+    return out, problems
+
+def write_splits(splits, problems):
+    t = lambda x: 'mkTri ' + ' '.join(b(y) for y in x)
+    lines = ['(* GENERATED by tools/extract_facts.py from /repo/src on every run - do not edit *)',
+             'From Coq Require Import List String.', 'Import ListNotations.', 'Require Import MRB.Model.Types MRB.Model.Splits.', 'Open Scope string_scope.', '',
+             'Definition splits : list split_fn := [']
+    lines.append(';\n'.join(f'  mkSplit "{n}" {b(br)} ({t(r)}) ({t(a)}) ({t(i)})' for n, br, r, a, i in splits))
+    lines.append('].')
+    lines.append(f'Definition extractor_clean : bool := {b(not problems)}.')
+    for p in problems: lines.append(f'(* PROBLEM: {p} *)')
+    emit('SplitFns.v', '\n'.join(lines) + '\n')
+
 def main():
+    sp, spp = extract_splits()
+    write_splits(sp, spp)
+    for x in spp: print('extract_facts: PROBLEM:', x)
+    print(f'extract_facts: {len(sp)} split functions')
     c, p, s = extract_send_clauses()
     write_send(c, p, s)
     for x in p: print('extract_facts: PROBLEM:', x)
